@@ -15,12 +15,14 @@ func init() {
 			ID: "C29", Title: "The merged RIB holds a route exactly while some source advertises it", Level: "other",
 			Technique:   "typed-AST guard extraction: slice-used-as-set discipline (membership-guarded append or remove-all), install/remove control-dependent on first-source / no-source-left",
 			DesignRef:   "DESIGN.md §4 C29",
-			Decided:     "(1) the per-route source list is a set: routeContainer.addSource appends only under a dominating `source not yet present` test (or removeSource removes every occurrence), so a repeated advertisement followed by one withdrawal cannot leave a phantom source; (2) MergedLocRIB.AddRoute installs into the Loc-RIB exactly when the route hash was absent and otherwise only adds the source; (3) _delRoute removes from the Loc-RIB and deletes the container exactly under `no source left`, after removing the source; (4) all accesses to the route map happen under routesMu (every exported method that touches it locks it).",
+			Decided:     "(0) removeSource deletes exactly the element at the index getSourceIndex returned (table of slice-deletion idioms); (1) the per-route source list is a set: routeContainer.addSource appends only under a dominating `source not yet present` test (or removeSource removes every occurrence), so a repeated advertisement followed by one withdrawal cannot leave a phantom source; (2) MergedLocRIB.AddRoute installs into the Loc-RIB exactly when the route hash was absent and otherwise only adds the source; (3) _delRoute removes from the Loc-RIB and deletes the container exactly under `no source left`, after removing the source; (4) all accesses to the route map happen under routesMu (every exported method that touches it locks it).",
 			NotDecided:  "presence ⇔ advertised over all interleavings of sources (history-quantified); hash collisions of the route hash.",
 			TrustedBase: stdTrusted,
 		},
 		Run: runC29,
 		Controls: []Control{
+			{Name: "remove-source-truncates-behind-the-gap", File: "routingtable/mergedlocrib/routecontainer.go", Old: "\trc.sources[i] = rc.sources[len(rc.sources)-1]\n\trc.sources = rc.sources[:len(rc.sources)-1]\n", New: "\trc.sources = append(rc.sources[:i], rc.sources[len(rc.sources)-1])\n", Expect: "source-removed-is-the-one-found"},
+			{Name: "refactor-remove-source-by-splice", Silent: true, File: "routingtable/mergedlocrib/routecontainer.go", Old: "\trc.sources[i] = rc.sources[len(rc.sources)-1]\n\trc.sources = rc.sources[:len(rc.sources)-1]\n", New: "\trc.sources = append(rc.sources[:i], rc.sources[i+1:]...)\n"},
 			{Name: "addsource-unconditional", File: "routingtable/mergedlocrib/routecontainer.go", Old: "\tif rc.getSourceIndex(src) >= 0 {\n\t\treturn\n\t}\n", New: "", Expect: "source-list-is-a-set"},
 			{Name: "delroute-ignores-remaining-sources", File: "routingtable/mergedlocrib/mergedlocrib.go", Old: "\tif rtm.routes[h].srcCount() > 0 {\n\t\treturn\n\t}\n", New: "", Expect: "remove-iff-no-source-left"},
 		},
@@ -70,6 +72,40 @@ func runC29(c *core.Ctx) {
 	if src == nil || add == nil || rem == nil {
 		c.Undecided("anchor", pkg+".routeContainer.sources", token.NoPos, "anchor not found")
 		return
+	}
+	// (0) removeSource takes out exactly the source it looked up: deletion idiom with the index returned by getSourceIndex
+	if idx != nil {
+		var idxObjs []types.Object
+		ast.Inspect(rem.Decl.Body, func(n ast.Node) bool {
+			as, ok := n.(*ast.AssignStmt)
+			if !ok || len(as.Lhs) != 1 || len(as.Rhs) != 1 {
+				return true
+			}
+			if call, ok := core.Unparen(as.Rhs[0]).(*ast.CallExpr); ok && core.Callee(rem.Pkg, call) == idx.Obj {
+				if o := core.ObjOf(rem.Pkg, as.Lhs[0]); o != nil {
+					idxObjs = append(idxObjs, o)
+				}
+			}
+			return true
+		})
+		isIdx := func(e ast.Expr) bool {
+			o := core.ObjOf(rem.Pkg, e)
+			for _, x := range idxObjs {
+				if o == x && o != nil {
+					return true
+				}
+			}
+			return false
+		}
+		if len(idxObjs) == 0 {
+			c.Undecided("source-removed-is-the-one-found", rem.Name(), rem.Decl.Pos(), "removeSource does not obtain the index from getSourceIndex")
+		} else {
+			ok, wrong, pos := sliceDeletion(rem, src, isIdx, rem.Decl.Body)
+			if wrong == "" && !ok {
+				wrong = "the deletion is not one of the recognised idioms (shift+truncate, append(L[:i], L[i+1:]...), swap-with-last+truncate)"
+			}
+			c.Check(ok, "source-removed-is-the-one-found", rem.Name()+" deletes the source at the index it looked up", pos, wrong+": other sources of the route are dropped from the list (or the withdrawn one stays), so the route is removed from the merged RIB while a source still advertises it, or kept after the last one withdrew")
+		}
 	}
 	// (1)
 	removeAll := false
